@@ -21,6 +21,8 @@ m = {
  },
  "engines": [
   {"name": "coq-proof", "path": "coq/theories", "serves_properties": sorted(checks), "kind_free_text": "Coq 8.16.1 development: Model/ (executable Gallina models), Proofs/, Props/ (property theorems closed by exact + Print Assumptions), Oracle/ (decidable property checkers and case types)"},
+  {"name": "translated-tie", "path": "tools/go2coq", "serves_properties": sorted(p for p in checks if os.path.exists(os.path.join(ROOT, "coq", "tie", p + "_tie.v.in"))),
+   "kind_free_text": "Go-to-Gallina translator (go/ast) regenerating the pure decision/arithmetic functions of coq/tie/spec.json from /repo's current source on every run; coq/tie/<Cxx>_tie.v.in proves each translated function equal to the hand-written model function for all inputs (tie_leg.py)"},
   {"name": "correspondence", "path": "harness", "serves_properties": sorted(checks), "kind_free_text": "Go drivers (build tag verif) run the real code from /repo in testing/synctest bubbles and emit cases_*.v; coqc evaluates model and oracle on them with vm_compute"},
  ],
  "checks": [],
@@ -43,7 +45,8 @@ for p in props:
         "engine": "coq-proof",
         "level_claimed": {"category": "proof", "text": c.get("level_text", ""), "design_ref": c.get("design_ref", "DESIGN.md section 6/" + pid)},
         "level_note": c.get("level_note", ""),
-        "technique": c.get("technique", "Coq theorems over a hand-written Gallina model + differential correspondence check (vm_compute) against the Go implementation"),
+        "technique": c.get("technique", "Coq theorems over a hand-written Gallina model + differential correspondence check (vm_compute) against the Go implementation"
+                           + ("; the pure functions of this property are also translated from the current Go source on every run and proved equal to the model (tie theorems)" if os.path.exists(os.path.join(ROOT, "coq", "tie", pid + "_tie.v.in")) else "")),
     })
 json.dump(m, open(os.path.join(ROOT, "MANIFEST.json"), "w"), indent=1)
 print("checks:", [c["property_id"] for c in m["checks"]], "n/a:", len(m["not_applicable"]))
